@@ -135,8 +135,14 @@ pub fn gen_case(rng: &mut Rng, kind: &str) -> Case {
 		keys.push(ks);
 	}
 	// value of a key on preimage columns: fixed per (col, key)
+	// distinct ids and at least 8 bytes so that two keys never share value bytes (value iteration
+	// identifies a key by its value)
 	let fixed: Vec<Vec<u64>> = (0..ncols)
-		.map(|_| (0..nkeys).map(|_| (rng.range(1, 1 << 20) << 32) | size_classes(rng)).collect())
+		.map(|c| {
+			(0..nkeys)
+				.map(|k| ((((c as u64) << 10 | k as u64) << 4 | rng.below(16)) + 16) << 32 | std::cmp::max(8, size_classes(rng)))
+				.collect()
+		})
 		.collect();
 	let nsteps = rng.range(8, 40) as usize;
 	let mut steps = Vec::new();
@@ -295,6 +301,8 @@ impl ValueBook {
 pub struct Run {
 	pub obs: Vec<u64>,
 	pub per_step: Vec<Vec<u64>>,
+	/// per step, per column: value iteration result (value token+1 -> count) for hash counted columns
+	pub iters: Vec<Vec<Option<Vec<(u64, u64)>>>>,
 	pub panicked: Option<String>,
 }
 
@@ -305,6 +313,7 @@ pub fn run_impl(case: &Case, dir: &std::path::Path) -> Run {
 	// canonicalise tokens first: the model must see the same canonical tokens
 	let mut per_step = Vec::new();
 	let mut obs = Vec::new();
+	let mut iters = Vec::new();
 	let res = std::panic::catch_unwind(std::panic::AssertUnwindSafe(|| {
 		let mut db = Some(Db::open_or_create(&opts).expect("open_or_create"));
 		for s in &case.steps {
@@ -358,6 +367,45 @@ pub fn run_impl(case: &Case, dir: &std::path::Path) -> Run {
 					}
 				}
 			}
+			// value iteration on hash counted columns; after a reopen it is part of the compared observation
+			let mut its = Vec::new();
+			for (c, cc) in case.cols.iter().enumerate() {
+				if cc.rc && !cc.btree {
+					let mut found: Vec<(u64, u64)> = Vec::new();
+					let r = d.iter_column_while(c as u8, |st| {
+						found.push((book.token_of(&st.value), st.rc as u64));
+						true
+					});
+					if r.is_err() {
+						found.push((0xeeee, 0));
+					}
+					found.sort();
+					if matches!(s, Step::Reopen) {
+						for k in &case.keys[c] {
+							let _ = k;
+						}
+					}
+					its.push(Some(found));
+				} else {
+					its.push(None);
+				}
+			}
+			if matches!(s, Step::Reopen) {
+				// compared with the model: stored count of every key of every hash counted column
+				for (c, it) in its.iter().enumerate() {
+					if let Some(found) = it {
+						for k in 0..case.keys[c].len() {
+							let tok = fixed_token(case, c, k);
+							let rc: u64 = found.iter().filter(|(t, _)| tok.map_or(false, |x| *t == x + 1)).map(|(_, r)| *r).sum();
+							line.push(rc);
+						}
+						// anything iteration reports that is not a known key's value
+						let stray = found.iter().filter(|(t, _)| !(0..case.keys[c].len()).any(|k| fixed_token(case, c, k).map_or(false, |x| *t == x + 1))).count();
+						line.push(stray as u64);
+					}
+				}
+			}
+			iters.push(its);
 			obs.extend_from_slice(&line);
 			per_step.push(line);
 		}
@@ -373,7 +421,21 @@ pub fn run_impl(case: &Case, dir: &std::path::Path) -> Run {
 		}
 	});
 	let _ = std::fs::remove_dir_all(dir);
-	Run { obs, per_step, panicked }
+	Run { obs, per_step, iters, panicked }
+}
+
+/// On preimage columns every Set of (col, key) carries the same token: find it in the history.
+pub fn fixed_token(case: &Case, c: usize, k: usize) -> Option<u64> {
+	for s in &case.steps {
+		if let Step::Commit(ops) = s {
+			for (cc, o, kk, v) in ops {
+				if *cc as usize == c && *kk == k && *o == 0 {
+					return Some(*v)
+				}
+			}
+		}
+	}
+	None
 }
 
 #[cfg(parity_db_verif)]
@@ -404,6 +466,7 @@ pub fn canonicalise(case: &mut Case) {
 /// C07: on counted columns a key with positive count is readable; when nothing is queued
 /// (every accepted commit processed) readable iff count positive.
 pub fn oracle(case: &Case, run: &Run) -> Result<(), String> {
+	let check_iter = case.class == "c07" || case.class == "replay";
 	if let Some(p) = &run.panicked {
 		return Err(format!("panic the implementation panicked: {}", p.chars().take(200).collect::<String>()))
 	}
@@ -466,6 +529,20 @@ pub fn oracle(case: &Case, run: &Run) -> Result<(), String> {
 				if status != 0 {
 					return Err(format!("step-error step {si}: pipeline step failed with code {status}"))
 				},
+		}
+		// value iteration of hash counted columns: exactly the live values with their counts
+		// once every accepted commit has been logged
+		if queued == 0 && check_iter {
+			for c in 0..nc {
+				if let Some(found) = &run.iters[si][c] {
+					let mut want: Vec<(u64, u64)> = (0..nk).filter(|k| cnt[c][*k] > 0).map(|k| (val[c][k] + 1, cnt[c][k])).collect();
+					want.sort();
+					if &want != found {
+						let cls = if matches!(s, Step::Reopen | Step::EnactAll) { "iter-mismatch" } else { "iter-misses-unenacted" };
+						return Err(format!("{cls} step {si} col {c}: value iteration gives {:x?}, live values are {:x?}", found, want))
+					}
+				}
+			}
 		}
 		// reads
 		let mut i = 1;
